@@ -300,6 +300,27 @@ impl Check for C08 {
             }
             return multi(rxs);
         }
+        if d.chance(8) {
+            // a bracket with many items (more than 16 / 64 / 128)
+            let n = *d.pick(&[17usize, 33, 64, 65, 100, 129]);
+            let wide = gen::wide_alphabet();
+            let mut items = Vec::new();
+            for i in 0..n {
+                let ch = wide[(i * 7 + d.below(3)) % wide.len()];
+                items.push(match d.below(5) {
+                    0 => ClassItem::Range(ch, char::from_u32(ch as u32 + d.below(3) as u32).unwrap_or(ch)),
+                    1 => {
+                        let nm = gen::gen_named(d, &p, true);
+                        ClassItem::Named(nm, d.chance(64))
+                    }
+                    _ => ClassItem::Lit(ch, LitForm::Verbatim),
+                });
+            }
+            return multi(vec![Rx::Class(Class::Bracket(Bracket {
+                negated: d.chance(64),
+                set: ClassSet::Items(items),
+            }))]);
+        }
         let first = if d.chance(40) {
             gen::gen_class(d, &p)
         } else {
